@@ -6,10 +6,10 @@ from .. import apiuniverse as au
 
 KNOWN = ['OpCacheKeyedByName', 'NodeCacheSurvives', 'StateStash', 'TemplateCacheByPath']
 FINDING_OF = {'OpCacheKeyedByName': 'D08', 'NodeCacheSurvives': 'D09', 'StateStash': 'D40', 'TemplateCacheByPath': 'D23'}
-ALL_PROPS = ['ReadOnlyPreservesMeaning', 'OnlyAddressedChange', 'EdgeOverrideOnlyItsEdge', 'LoadYieldsFile', 'ClearModelClears', 'DeriveCopies']
+ALL_PROPS = ['ReadOnlyPreservesMeaning', 'OnlyAddressedChange', 'EdgeOverrideOnlyItsEdge', 'LoadYieldsFile', 'ClearModelClears', 'DeriveCopies', 'Derive2Copies']
 
 
-ALL_CIRCS = {'c1', 'c2', 'c3', 'cy', 'd1'}
+ALL_CIRCS = {'c1', 'c2', 'c3', 'cy', 'd1', 'd2'}
 
 
 def tlc_behaviours(ctx, name, calls, maxlen, workers=16, simulate=None, extra=(), circs=None):
